@@ -211,7 +211,7 @@ fn random_asrw(rng: &mut Rng, id: usize) -> ASrw {
         .map(|_| match rng.below(7) {
             0 => WAct::Zero,
             1 => WAct::Err([2u8, 3, 5, 6][rng.below(4)]),
-            2 => WAct::Part(1 + rng.below(3)),
+            2 => WAct::Part([1usize, 2, 3, 8, 15, 16, 63][rng.below(7)]),
             3 => WAct::Pending,
             _ => WAct::Full,
         })
@@ -231,7 +231,7 @@ fn random_ops(rng: &mut Rng) -> Vec<AOp> {
             0 => AOp::Flush,
             1 => AOp::Shutdown,
             2 | 3 => {
-                let l = rng.below(5);
+                let l = [0usize, 1, 2, 4, 9, 16, 17, 64, 65][rng.below(9)];
                 AOp::Write(rng.bytes(l, b"XYZ\n"))
             }
             _ => AOp::Read(rng.below(3), [0usize, 0, 1, 2, 3, 4, 8, 9, 16, 33][rng.below(10)]),
@@ -273,6 +273,23 @@ pub fn run(mode: &str, thorough: bool, seed: u64, w: &mut impl std::io::Write) {
                 let (s1, s2) = (ASrw::new(1, &big, r1.clone()), ASrw::new(2, b"SECONDsecondSECONDsecond", r2.clone()));
                 for ops in &scheds4 {
                     chain_line(&s1, &s2, ops, w);
+                    n += 1;
+                }
+            }
+        }
+        // write pass-through: larger payloads, every inner result (incl. Pending) in every position, flush / shutdown results
+        {
+            let wa = [WAct::Full, WAct::Part(1), WAct::Part(15), WAct::Part(16), WAct::Zero, WAct::Err(2), WAct::Err(5), WAct::Pending];
+            let p16: Vec<u8> = (0..16u8).map(|i| b'A' + i).collect();
+            let p64: Vec<u8> = (0..64u8).map(|i| b'a' + i % 26).collect();
+            let wops = vec![AOp::Write(p16.clone()), AOp::Read(1, 4), AOp::Write(p64.clone()), AOp::Flush, AOp::Write(b"123456789".to_vec()), AOp::Shutdown, AOp::Read(0, 16)];
+            for ws in seqs(&wa, 3) {
+                for fa in [vec![], vec![Some(5u8)], vec![Some(255u8), None]] {
+                    let mut s2 = ASrw::new(2, b"cdcdcdcdcdcdcdcdcdcd", vec![RAct::Data(3, false)]);
+                    s2.wacts = ws.clone();
+                    s2.facts = fa.clone();
+                    let s1 = ASrw::new(1, b"AB", vec![]);
+                    chain_line(&s1, &s2, &wops, w);
                     n += 1;
                 }
             }
@@ -327,6 +344,23 @@ pub fn run(mode: &str, thorough: bool, seed: u64, w: &mut impl std::io::Write) {
             for limit in [8u64, 16, 17, 32, 33, (1 << 32) - 1, 1 << 32, (1 << 32) + 1, u64::MAX - 1] {
                 for ops in &scheds4 {
                     take_line(&s, limit, ops, w);
+                    n += 1;
+                }
+            }
+        }
+        // write pass-through: larger payloads, every inner result (incl. Pending) in every position, flush / shutdown results
+        {
+            let wa = [WAct::Full, WAct::Part(1), WAct::Part(15), WAct::Part(16), WAct::Zero, WAct::Err(2), WAct::Err(5), WAct::Pending];
+            let p16: Vec<u8> = (0..16u8).map(|i| b'A' + i).collect();
+            let p64: Vec<u8> = (0..64u8).map(|i| b'a' + i % 26).collect();
+            let wops = vec![AOp::Write(p16.clone()), AOp::Read(1, 4), AOp::Write(p64.clone()), AOp::Flush, AOp::Write(b"123456789".to_vec()), AOp::Shutdown, AOp::Read(0, 16)];
+            for ws in seqs(&wa, 3) {
+                for fa in [vec![], vec![Some(5u8)], vec![Some(255u8), None]] {
+                    let mut s2 = ASrw::new(2, b"cdcdcdcdcdcdcdcdcdcd", vec![RAct::Data(3, false)]);
+                    s2.wacts = ws.clone();
+                    s2.facts = fa.clone();
+                    s2.id = 1;
+                    take_line(&s2, 7, &wops, w);
                     n += 1;
                 }
             }
